@@ -52,6 +52,7 @@ type Task struct {
 	fine     int // function-entry yields seen
 	body     func(t *Task)
 	switches int
+	blocked  uint32 // set by BlockYield: waiting for a lock, skipped by the next decision
 }
 
 // Sched owns the baton.
@@ -72,6 +73,7 @@ type Sched struct {
 	Steps  int
 	Trace  []int // chosen task per step
 	Capped bool
+	Blocks int // yields of tasks that found a lock taken
 }
 
 func New() *Sched { return &Sched{MaxSteps: 200000} }
@@ -110,6 +112,16 @@ func (t *Task) Yield() {
 	waitFor(&t.word)
 }
 
+// BlockYield is Yield for a task that cannot proceed (it waits for a lock another task
+// holds): the scheduler leaves it out of its next decision, then it tries again.
+//
+//go:norace
+func (t *Task) BlockYield() {
+	xchg(&t.blocked, 1)
+	t.s.Blocks++
+	t.Yield()
+}
+
 // FineYields returns the number of function-entry yield points this task has passed.
 //
 //go:norace
@@ -146,11 +158,19 @@ func (s *Sched) Run() {
 	}
 	last := -1
 	for {
-		var runnable []int
+		var runnable, waiting []int
 		for _, t := range s.tasks {
 			if !t.isDone() {
-				runnable = append(runnable, t.ID)
+				if load(&t.blocked) != 0 {
+					waiting = append(waiting, t.ID)
+					xchg(&t.blocked, 0) // skipped for one decision only
+				} else {
+					runnable = append(runnable, t.ID)
+				}
 			}
+		}
+		if len(runnable) == 0 {
+			runnable = waiting // everybody waits: let them try again (a real deadlock ends at the step cap)
 		}
 		if len(runnable) == 0 {
 			break
